@@ -25,7 +25,8 @@ THEOREMS = ['GV.Coll.' + t for t in (
     'verts_multi', 'len_eq', 'iter_eq', 'bool_iff', 'contains_iff', 'add_fc', 'add_mixed', 'add_track',
     'getIdx_nonneg', 'getIdx_neg', 'getIdx_out', 'getSlice_full', 'getSlice_step1', 'getSlice_reverse',
     'getSlice_step0', 'listEq_eq_by', 'listEqBy_iff', 'listEqBy_refl', 'listEqBy_symm', 'sameOrEq_symm', 'eqFC_refl',
-    'eqFC_symm', 'eqFC_iff', 'eqColl_refl', 'eqColl_symm', 'eqColl_mixed')]
+    'eqFC_symm', 'eqFC_iff', 'eqColl_refl', 'eqColl_symm', 'eqColl_mixed',
+    'add_fc_assoc', 'add_fc_empty', 'add_fc_len', 'add_fc_contains')]
 
 BAD_DT = {'date': date(2020, 1, 1), 'str': '2020-01-01', 'none': None, 'int': 5}
 
